@@ -21,9 +21,9 @@ META = {
                   "test vectors on the specification, and emits each input with the prescribed outputs. Each case is executed "
                   "on encodeBase64/decodeBase64, encodeHex/decodeHex, Url::encode/decode/params/parseQuery and SHA1::hash; "
                   "for malformed text only 0 <= length <= bound is required. Recorded runs on arrays up to 32 KiB (thorough "
-                  "1 MiB; SHA-1 up to 128 KiB) and on mutated texts are re-computed by TLC.",
+                  "480 KiB; SHA-1 up to 128 KiB) and on mutated texts are re-computed by TLC.",
     "level_note": "Bounded: exhaustive only within spec/MC_Codecs_*.cfg; larger inputs are seeded random samples. The property "
-                  "samples lengths to 4 MiB (SHA-1 to 8 MiB); TLC recomputes at most 1 MiB (SHA-1 128 KiB, about 10-20 ms per "
+                  "samples lengths to 4 MiB (SHA-1 to 8 MiB); TLC recomputes at most 480 KiB (its sequences are limited to 10^6 elements; SHA-1 128 KiB, about 10-20 ms per "
                   "block) - larger messages are not decided. Url::encode is not compared with one fixed text: the "
                   "specification accepts any text that a strict percent-decoder maps back to the input and that leaves raw "
                   "only characters the mode allows (RFC 2396 unreserved, plus reserved in URI mode). Memory safety and "
@@ -56,7 +56,7 @@ def run(ctx):
     ctx.replay(rep, cases, label="R/Codecs", timeout=ctx.pick(600, 3000))
     os.unlink(cases)
     # V: asl's codecs on large / random / mutated inputs, every result recomputed by TLC from Codecs.tla
-    maxkib = ctx.pick(32, 1024)
+    maxkib = ctx.pick(32, 480)   # TLC refuses sequences above 10^6 elements: 2 hex digits per byte
     files = ctx.record(rec, ctx.pick(8, 32), ctx.pick(60, 150), "V/Codecs", extra_args=["--mode", str(maxkib)])
     if files:
         ctx.add_samples([x for x in (_sample(files[0], '"e":"junk"', 600),) if x])
